@@ -410,7 +410,7 @@ func C11(c *Ctx) {
 	r.Explanation = "(A3, guarded ordering) whenever the stored deposit is positive, the settlement claim precedes: the store of a new FlowRate, the refund on cancel, and — for an expired stream — the deposit transfer of a top-up; LastOutflowTime is written only by the claim step and at creation, both with the block time (A4); " +
 		"(A2) stream creation is guarded by not(duration < 60) in the handler and in ValidateBasic, with duration computed from the message's deposit and flow rate; " +
 		"(A9, sink-scoped hazard inventory) in every stream function reachable from the stream MsgServer: no floating-point operation or conversion; every int64*int64 and Duration*Duration product and every int64→uint64 conversion of a computed value is an obligation that must be range-guarded. The payout formula itself is numeric and not decided."
-	r.Rules = []string{"A3.settle-before-change", "A4.last-outflow-writers", "A2.min-duration", "A9.float", "A9.int-mul", "A9.duration-mul", "A9.narrowing"}
+	r.Rules = []string{"A3.settle-before-change", "A4.last-outflow-writers", "A2.min-duration", "A7.elapsed-seconds", "A9.float", "A9.int-mul", "A9.duration-mul", "A9.narrowing"}
 	r.Trusted = []string{"time.Time arithmetic", "sdk.Int arbitrary precision"}
 	r.NotDecided = []string{"min(remaining, rate x seconds) payout formula", "deposit-zero-time formula", "sufficiency of the remaining deposit until the advertised time"}
 
@@ -511,7 +511,71 @@ func C11(c *Ctx) {
 		}
 	}
 	minDuration(c)
+	elapsedSeconds(c)
 	streamHazards(c)
+}
+
+// elapsedSeconds: the claim amount is NewCoin(denom, seconds x flowRate) where seconds is the
+// whole-second quotient of ONE time difference (now - lastOutflow). A difference of two
+// truncated instants (Unix() - Unix()) counts a second that has not fully elapsed.
+func elapsedSeconds(c *Ctx) {
+	w, r := c.W, c.R
+	f := w.LookupFunc("x/stream/types.CalculateAmountToClaim")
+	if f == nil {
+		r.Undecided("A7.elapsed-seconds", "func", "", "claim-amount function exists", "not found")
+		return
+	}
+	n := 0
+	for _, b := range f.Blocks {
+		for _, in := range b.Instrs {
+			call, ok := in.(*ssa.Call)
+			if !ok {
+				continue
+			}
+			e := w.ExprOf(call)
+			if !calleeIs(e, "math.Int).Mul") || len(e.Args) != 2 {
+				continue
+			}
+			// one factor is the flow-rate parameter, the other the seconds
+			var sec *ir.Expr
+			for i := 0; i < 2; i++ {
+				a, o := e.Args[i], e.Args[1-i]
+				if calleeIs(a, "NewInt") && len(a.Args) == 1 && a.Args[0].Op == "param" {
+					sec = o
+				}
+			}
+			if sec == nil {
+				continue
+			}
+			n++
+			if calleeIs(sec, "NewInt") && len(sec.Args) == 1 {
+				sec = sec.Args[0]
+			}
+			ok2 := true
+			seen := false
+			for _, a := range sec.Alts() {
+				a = stripConvE(a)
+				if a.Op == "const" && a.Name == "0" {
+					continue
+				}
+				q := a
+				isQuot := q.Op == "bin" && q.Name == "/" && (q.Args[1].Op == "const" && (q.Args[1].Name == "time.Second" || q.Args[1].Name == "1000000000"))
+				if isQuot {
+					d := stripConvE(q.Args[0])
+					if calleeIs(d, "time.Duration).Nanoseconds") && len(d.Args) == 1 {
+						d = d.Args[0]
+					}
+					if calleeIs(d, "time.Time).Sub") && len(d.Args) == 2 && d.Args[0].Op == "param" && d.Args[1].Op == "param" {
+						seen = true
+						continue
+					}
+				}
+				ok2 = false
+			}
+			r.Require(ok2 && seen, "A7.elapsed-seconds", fn(f), pos(c, in), "the seconds multiplied by the flow rate are floor((now - lastOutflow) / 1s), computed from one time difference", "seconds = "+sec.String())
+		}
+	}
+	r.Floor("seconds x flow-rate products in the claim-amount function", n, 1)
 }
 
 // notExpiredBoth keeps the established "not Before"/"not Equal" edges only where taking them
